@@ -18,6 +18,10 @@ BUILT = {
          "Exhaustive TLC model check: for every single (quick) / double (thorough) message-level fault (delete, duplicate, damage, truncate) at every position and phase, protocols 1/2/4, both directions, a role counts a file as done or reports success only if the destination equals the source; bound to the code by injecting byte-level faults (flip, delete, duplicate, insert, truncate) at first/middle/last byte of every protocol message of both directions of real transfers and evaluating Transfer's NoSilentCorruption/Fidelity formulas on each observed outcome.",
          "Trusts TLC, the harness wire (fault injection by sender-stream offset), SHA-256; quick covers 4 base transfers (upload/download x base64/binary, protocol 4), thorough adds protocols 1-3, directory/archive mode, compression, double faults.",
          "2/C02", "transfer"),
+ "C10": ("TLA+ spec Transfer.tla with UserStop/NoticeStop/DeleteCreated checked exhaustively by TLC incl. liveness; real transfers stopped before/after every protocol message validated against TransferObs.tla",
+         "Exhaustive TLC model check with a user stop (client keep, client delete, server keep) enabled in every state of the protocol (protocols 1..4, both directions): no role reports success unless every file was completed and verified, completed files are never damaged by a plain stop, after a noticed stop-and-delete nothing created is left, and both roles always finish; bound to the code by delivering the stop synchronously inside the wire before and after every protocol message of real transfers (plain, archive and directory/overwrite modes, destinations with pre-existing content) and judging the observed results, time from the stop to each role's return, what is left at the destination and what pre-existing entries changed.",
+         "Trusts TLC, the harness wire (stop injected at message boundaries; sub-message timing left to the scheduler), filesystem snapshots; prompt = timeout + 1.5 s + 8 s slack; one stop per transfer; process-level SIGINT/SIGTERM on real trz/tsz binaries is not exercised (stopTransferringFiles(false) is called, which is all the signal handler does).",
+         "2/C10", "transfer"),
 }
 checks = []
 for p in props:
